@@ -1,7 +1,7 @@
 #!/bin/sh
 # run every check once (quick tier by default) and print one line per check
 TIER=${1:-quick}
-cd /verif
+cd "$(dirname "$0")/.." || exit 2      # the tree this script belongs to (a vp run works on a snapshot)
 for p in C01 C02 C03 C04 C05 C06 C07 C08 C09 C10 C11 C12 C13 C14 C15 C16 C17 C18 C19 C20; do
   s=$(date +%s)
   out=$(./check $p --tier $TIER --seed ${VERIF_SEED:-0} 2>&1); rc=$?
